@@ -19,7 +19,7 @@ def lpt(values, k, flip=None):
     """Longest-processing-time-first: items in non-increasing order, each to a least-loaded bin."""
     bins = [[] for _ in range(k)]
     sums = [0] * k
-    order = sorted(values) if flip == "ascending" else _desc(values)
+    order = sorted(values) if flip == "ascending" else list(values) if flip == "unsorted" else _desc(values)
     for v in order:
         if flip == "most-loaded":
             i = max(range(k), key=sums.__getitem__)
@@ -33,7 +33,9 @@ def lpt(values, k, flip=None):
 def roundrobin(values, k, flip=None):
     """Deal the items, sorted in non-increasing order, cyclically to the bins."""
     bins = [[] for _ in range(k)]
-    order = sorted(values) if flip == "ascending" else _desc(values)
+    # (dealing in ascending order gives the same bins as multisets - the residue classes coincide - so the
+    # visible variant is "not sorted at all")
+    order = list(values) if flip == "unsorted" else _desc(values)
     for j, v in enumerate(order):
         bins[j % k].append(v)
     return bins
@@ -166,7 +168,7 @@ REFERENCE = {
     "decreasing": cover_decreasing, "twothirds": cover_twothirds, "threequarters": cover_threequarters,
 }
 FLIPS = {
-    "greedy": ["ascending", "most-loaded"], "roundrobin": ["ascending"],
+    "greedy": ["ascending", "unsorted", "most-loaded"], "roundrobin": ["unsorted"],
     "ff": ["fit"], "ffd": ["fit", "ascending"], "bf": ["fit", "emptiest"], "bfd": ["fit", "emptiest", "ascending"],
     "decreasing": ["full", "ascending"], "twothirds": ["full"],
     "threequarters": ["full", "half", "third", "start"],
